@@ -1166,6 +1166,12 @@ impl RoomAuthorisations {
         }
         let room_id = room_id.unwrap();
 
+        if let Some(old_entity) = &node_to_insert.old_entity {
+            if !old_entity.eq(&node._entity) {
+                //the local row with this id is of another entity: the right checked below would not be the right on that row
+                return false;
+            }
+        }
         if node_to_insert.old_verifying_key.is_some() && node_to_insert.old_room_id.is_none() {
             //the local row with this id belongs to no room (room definitions, peers..): never replaced by a peer
             return false;
